@@ -9,7 +9,8 @@ case = {"doc": <gen/docs.py document; paragraphs may repeat a field name, also i
         "blind": bool}     # True: between the operations only the dump is looked at
 key      = [name index, occurrence index or null, case mode]   (indices modulo what is live;
             occurrence null = the un-indexed key, i.e. all occurrences; case mode 3..5 = the key is
-            handed over as the occurrence's field-name token where it denotes one occurrence)
+            handed over as the occurrence's field-name token where it denotes one occurrence; 6..8 = an
+            indexed key is written with its negative index (name, i - count))
 paraspec = {"fields": [[name, value], ...], "how": "assign" | "from_dict"}
 """
 from hypothesis import strategies as st
@@ -55,7 +56,12 @@ def resolve_key(run, p, key):
 def roles(*keys):
     """case mode 3..5 = hand the library the occurrence's field-name token instead of the
     name / (name, i) (same spelling rules as 0..2 where the token form is not applicable)."""
-    return tuple(r for r, k in zip(("key", "ref"), keys) if k is not None and k[2] >= 3)
+    return tuple(r for r, k in zip(("key", "ref"), keys) if k is not None and 3 <= k[2] < 6)
+
+
+def neg_roles(*keys):
+    """case mode 6..8 = an indexed key is written with its negative index (name, i - count)."""
+    return tuple(r for r, k in zip(("key", "ref"), keys) if k is not None and k[2] >= 6)
 
 
 def check(case):
@@ -87,9 +93,9 @@ def check(case):
             # a read between the operations (the only look-up by key in a blind history)
             if p:
                 key = resolve_key(run, p, op[2])
-                run.token_roles = roles(op[2])
+                run.token_roles, run.neg_roles = roles(op[2]), neg_roles(op[2])
                 run.do_get(pi, key, op[3], what)
-                run.token_roles = ()
+                run.token_roles = run.neg_roles = ()
             continue
         if kind in ("first", "last", "before", "after"):
             if not p:
@@ -98,8 +104,9 @@ def check(case):
             ref = resolve_key(run, p, op[3]) if kind in ("before", "after") else None
             dup = len(run.occ(p, key[0])) > 1
             run.token_roles = roles(op[2], op[3] if ref is not None else None)
+            run.neg_roles = neg_roles(op[2], op[3] if ref is not None else None)
             run.do_order(pi, kind, key, ref, what)
-            run.token_roles = ()
+            run.token_roles = run.neg_roles = ()
             run.labels.add("order-" + kind + ("-indexed" if key[1] is not None else ""))
             if dup:
                 run.labels.add("order-on-duplicated-field")
@@ -116,9 +123,9 @@ def check(case):
             if run.occ(p, "Nope") or not p or op[2] not in ("before", "after"):
                 continue
             key = resolve_key(run, p, op[3])
-            run.token_roles = roles(op[3])
+            run.token_roles, run.neg_roles = roles(op[3]), neg_roles(op[3])
             run.do_order(pi, op[2], key, ("Nope", None), what)
-            run.token_roles = ()
+            run.token_roles = run.neg_roles = ()
         elif kind == "sort":
             run.do_sort(pi, op[2] if op[2] in SORT_KEYS else "default")
             run.labels.add("sort")
@@ -130,9 +137,9 @@ def check(case):
             key = resolve_key(run, p, op[2])
             if len(run.occ(p, key[0])) > 1:
                 run.labels.add("set-on-duplicated-field" + ("-indexed" if key[1] is not None else ""))
-            run.token_roles = roles(op[2])
+            run.token_roles, run.neg_roles = roles(op[2]), neg_roles(op[2])
             run.do_set(pi, key, op[3], what)
-            run.token_roles = ()
+            run.token_roles = run.neg_roles = ()
         elif kind == "setnew":
             if run.occ(p, op[2]):
                 continue
@@ -148,9 +155,9 @@ def check(case):
                 continue
             if len(run.occ(p, key[0])) > 1:
                 run.labels.add("del-on-duplicated-field" + ("-indexed" if key[1] is not None else ""))
-            run.token_roles = roles(op[2])
+            run.token_roles, run.neg_roles = roles(op[2]), neg_roles(op[2])
             run.do_del(pi, key, what, op[3] if len(op) > 3 else None)
-            run.token_roles = ()
+            run.token_roles = run.neg_roles = ()
         else:
             continue
         run.compare(what)
@@ -160,7 +167,7 @@ def check(case):
     return (nontrivial, sorted(run.labels))
 
 
-key = st.tuples(st.integers(0, 4), st.one_of(st.none(), st.integers(0, 3)), st.integers(0, 5))
+key = st.tuples(st.integers(0, 4), st.one_of(st.none(), st.integers(0, 3)), st.integers(0, 8))
 value = st.sampled_from(docs.VALUES)
 paraspec = st.fixed_dictionaries({
     "fields": st.lists(st.tuples(st.sampled_from(["Package", "X", "Alpha", "zed"]), value),
@@ -238,6 +245,7 @@ def edit_then_move():
                  for i, n in enumerate(names)]
             d = {"lead": "", "paras": [p], "seps": [], "tail": tail, "final_nl": fin}
             keys = [[ni, occ, m] for ni in range(3) for occ in (None, 0, 1) for m in (0, 3)]
+            keys += [[ni, occ, 6] for ni in range(3) for occ in (0, 1)]
             firsts = []
             for k in keys:
                 firsts += [["set", 0, k, "n"], ["del", 0, k], ["del", 0, k, "pop"]]
@@ -247,7 +255,7 @@ def edit_then_move():
             seconds = [["last", 0, [0, 0, 0]], ["last", 0, [0, None, 0]], ["first", 0, [2, None, 0]],
                        ["after", 0, [0, 0, 0], [2, None, 0]], ["sort", 0, "default"], ["sort", 0, "length"],
                        ["setnew", 0, "New", "n"], ["setnew", 0, "Zed", "n\n c"], ["set", 0, [0, 0, 0], "m"],
-                       ["del", 0, [0, 0, 3]], ["append", spec]]
+                       ["del", 0, [0, 0, 3]], ["del", 0, [0, 1, 6]], ["set", 0, [0, None, 0], "m"], ["append", spec]]
             for o1 in firsts:
                 for o2 in seconds:
                     yield {"doc": d, "ops": [o1, o2]}
